@@ -1,0 +1,14 @@
+//go:build verif
+
+package dedup
+
+// verifHook, when set by a verification harness, is called at the scheduling point of Limiter.Run
+// between the task lookup and getOutput ("looked-up"). It is compiled in only with the build tag
+// `verif`.
+var verifHook func(point string, input interface{})
+
+func verifPoint(point string, input interface{}) {
+	if h := verifHook; h != nil {
+		h(point, input)
+	}
+}
